@@ -6,6 +6,7 @@ very definitions the theorems are about.
 import JPV.Wire
 import JPV.Spec.Semantics
 import JPV.Impl.Parse
+import JPV.Spec.Valid
 namespace JPV.Driver
 open JPV.Wire
 
@@ -169,6 +170,33 @@ def handle (fields : List String) : String :=
         | some x => s!"{x.n}/{x.d}"
         | none => "ValueError"
       | none => "bad-request"
+  | ["rfc.judge", env, q] =>
+      match (readSexp env).bind decEnv, decStr q with
+      | some e, some s =>
+        let sg : Spec.Sigs := fun n => (e.fns.find? (fun d => d.name = n)).map (fun d => ⟨d.argTypes, d.ret⟩)
+        match Spec.judge sg e.minIdx e.maxIdx s with
+        | (.valid, some c) => "valid\t" ++ encQuery (Spec.abstractSegs c)
+        | (.disputed, some c) => "disputed\t" ++ encQuery (Spec.abstractSegs c)
+        | (.invalid, some _) => "invalid\tgrammatical"
+        | (_, none) => "invalid\tungrammatical"
+      | _, _ => "bad-request"
+  | ["impl.query", env, q, doc] =>
+      match (readSexp env).bind decEnv, decStr q, decJsonAll doc with
+      | some e, some s, some d =>
+        match Impl.compile e.toImpl s with
+        | .ok ast => encStream (Impl.finditer e.toImpl ast d)
+        | .error err => encCompileErr err
+      | _, _, _ => "bad-request"
+  | ["rfc.query", env, q, doc] =>
+      match (readSexp env).bind decEnv, decStr q, decJsonAll doc with
+      | some e, some s, some d =>
+        let sg : Spec.Sigs := fun n => (e.fns.find? (fun d => d.name = n)).map (fun d => ⟨d.argTypes, d.ret⟩)
+        match Spec.judge sg e.minIdx e.maxIdx s with
+        | (.valid, some c) => "valid\t" ++ encNodes (Spec.select e.toSpec (Spec.abstractSegs c) d)
+        | (.disputed, some c) => "disputed\t" ++ encNodes (Spec.select e.toSpec (Spec.abstractSegs c) d)
+        | (.invalid, some _) => "invalid\tgrammatical"
+        | (_, none) => "invalid\tungrammatical"
+      | _, _, _ => "bad-request"
   | ["echo.json", doc] =>
       match decJsonAll doc with
       | some d => encJson d
